@@ -12,6 +12,7 @@ import decimal
 import fractions
 import functools
 import hashlib
+import os
 import random as _random
 import types
 import weakref
@@ -108,6 +109,10 @@ def fingerprint(roots, extra=None, skip_attrs=()):
                 w(v, depth + 1)
                 out.append(',')
             out.append('>')
+        elif isinstance(o, ParameterizedMetaclass) and (o.__module__ or '').split('.')[0] in ('param', 'numbergen'):
+            # library classes (rx Wrapper/Trigger, Time, number generators) are not part of a world: their class-level state
+            # (lazily filled caches) is shared by all executions of a worker and must not make fingerprints order-dependent
+            out.append('libcls:%s.%s' % (o.__module__, o.__name__))
         elif isinstance(o, ParameterizedMetaclass):
             out.append('cls%d:%s(' % (n, o.__name__))
             for b in o.__bases__:
@@ -205,7 +210,15 @@ def fingerprint(roots, extra=None, skip_attrs=()):
         out.append(';')
     if extra is not None:
         out.append('EXTRA=' + repr(extra))
-    return hashlib.sha1(''.join(out).encode()).hexdigest()
+    digest = hashlib.sha1(''.join(out).encode()).hexdigest()
+    rawdir = os.environ.get('VERIF_FPRAW')
+    if rawdir:
+        try:
+            with open(os.path.join(rawdir, digest + '.txt'), 'x') as f:
+                f.write(''.join(out))
+        except FileExistsError:
+            pass
+    return digest
 
 
 def try_fingerprint(roots, extra=None, **kw):
